@@ -41,7 +41,7 @@ MANIFEST = {
             'locator calls tag-free must render to themselves (HTML and '
             'String).  All templates with <= 2 (quick) / <= 3 (thorough) '
             'tags, depth <= 2, over seven tag kinds, with every text slot '
-            'drawn from a 18-fragment (incl. the empty text) near-tag / near-line-end alphabet (at most 2 slots '
+            'drawn from a 20-fragment (incl. the empty text and blanks only) near-tag / near-line-end alphabet (at most 2 slots '
             'deviating at once), printed in dtml/SSI/EPFS syntax with and '
             'without a newline after block tags, rendered with four '
             'namespaces, must equal the reference rendering (text verbatim, '
@@ -74,7 +74,7 @@ FREE_TOK = {
 }
 FRAGS = ['<', '<d', '<!--', '&dt', '%', '"', "'", '\n', ' \n', 'ab',
          '\t \n', '\r\n', '\xa0\n', '\x0c\n', '&dtml-', '&dtml.u', ';',
-         '']       # '' = the slot is empty (an empty body, no text at all)
+         '', ' ', ' \t']       # '' = the slot is empty; blanks only
 NAMESPACES = [
     {'x': ['lit', 1], 'seq': ['seq', 'list', [['lit', 7], ['lit', 8]]]},
     {'x': ['lit', 0], 'seq': ['seq', 'list', [['lit', 7], ['lit', 8]]]},
